@@ -831,6 +831,7 @@ func AdoptSession(p Persistence, c *Config) (client *Client, warn []error, fatal
 
 	// storage includes a sequence number
 	storeOrderPerKey := make(map[uint]uint64, len(keys))
+	var storeOrderMax uint64
 
 	// “When a Client reconnects with CleanSession set to 0, both the Client
 	// and Server MUST re-send any unacknowledged PUBLISH Packets (where QoS
@@ -858,6 +859,9 @@ func AdoptSession(p Persistence, c *Config) (client *Client, warn []error, fatal
 			continue
 		}
 
+		if storageSeqNo > storeOrderMax {
+			storeOrderMax = storageSeqNo
+		}
 		if key&remoteIDKeyFlag != 0 {
 			continue // reception marker is valid
 		}
@@ -901,7 +905,9 @@ func AdoptSession(p Persistence, c *Config) (client *Client, warn []error, fatal
 	}
 
 	// instantiate client, which normalizes the limits from c
-	client = newClient(&ruggedPersistence{Persistence: p}, c)
+	rugged := &ruggedPersistence{Persistence: p}
+	rugged.seqNo.Store(storeOrderMax) // continue
+	client = newClient(rugged, c)
 	if n := len(publishAtLeastOnceKeys); n > c.AtLeastOnceMax {
 		return nil, warn, fmt.Errorf("mqtt: %d AtLeastOnceMax is less than the %d pending in session", c.AtLeastOnceMax, n)
 	}
